@@ -25,15 +25,14 @@ func (o *fmtOut) str(s string) {
 }
 
 func (o *fmtOut) val() V {
-	r := mkStr(o.b)
 	if o.opaque {
-		if r.K == KStr {
-			r = V{K: KSymStr, P: &SymStr{B: strBytes(r), Opaque: true}}
-		} else {
-			r.P.(*SymStr).Opaque = true
+		b := make([]V, len(o.b))
+		for i := range b {
+			b[i] = V{K: KOpq}
 		}
+		return V{K: KSymStr, P: &SymStr{B: b}}
 	}
-	return r
+	return mkStr(o.b)
 }
 
 // hostScalar converts a concrete scalar engine value (with its static/dynamic type) to a host value.
